@@ -148,7 +148,12 @@ fn c12_batch(seed: u64, index: u64, per_batch: u64) -> HistoryReport {
             }
             Ok(Ok((rem, plan))) => {
                 if ds.is_empty() {
-                    fail(&mut out, "delegation_fails_only_when_empty", "accepted an empty list".into());
+                    // "fails only when" is an only-if: an empty plan for nothing to distribute is a plan; anything else
+                    // cannot distribute the whole amount
+                    if amount != 0 || !rem.is_zero() || !plan.is_empty() {
+                        fail(&mut out, "delegation_distributes_everything", format!("empty list accepted for amount {} (remainder {}, plan {:?})", amount, rem, plan));
+                    }
+                    out.count("c12.delegation_empty_list_accepted_for_nothing");
                 } else {
                     let sum: u128 = plan.iter().map(|x| x.u128()).sum();
                     if !rem.is_zero() || sum != amount || plan.len() != ds.len() {
@@ -202,7 +207,7 @@ fn c12_batch(seed: u64, index: u64, per_batch: u64) -> HistoryReport {
             Ok((Err(e), _)) => {
                 let e = e.to_string();
                 if e.contains("verif: pass limit") {
-                    fail(&mut out, "undelegation_terminates", format!("calculate_undelegations({}) did not finish within 64 passes", amount));
+                    fail(&mut out, "undelegation_terminates", format!("calculate_undelegations({}) did not finish within the pass limit of the hook", amount));
                 } else if !ds.is_empty() && amount <= t {
                     fail(&mut out, "undelegation_fails_only_when_impossible", format!("calculate_undelegations({}) of total {} failed: {}", amount, t, e));
                 } else if ds.is_empty() {
@@ -213,7 +218,12 @@ fn c12_batch(seed: u64, index: u64, per_batch: u64) -> HistoryReport {
             }
             Ok((Ok(plan), np)) => {
                 if ds.is_empty() || amount > t {
-                    fail(&mut out, "undelegation_fails_only_when_impossible", format!("calculate_undelegations({}) of total {} was accepted", amount, t));
+                    // only-if: accepting is fine as long as the plan is one - which it can only be for amount 0 on an
+                    // empty list
+                    let sum: u128 = plan.iter().map(|x| x.u128()).sum();
+                    if !(ds.is_empty() && amount == 0 && sum == 0) {
+                        fail(&mut out, "undelegation_removes_exactly", format!("calculate_undelegations({}) of total {} was accepted with a plan summing to {}", amount, t, sum));
+                    }
                 } else {
                     let sum: u128 = plan.iter().map(|x| x.u128()).sum();
                     if sum != amount || plan.len() != ds.len() {
@@ -230,8 +240,10 @@ fn c12_batch(seed: u64, index: u64, per_batch: u64) -> HistoryReport {
                     }
                     match np {
                         Some(k) => {
+                            // "terminates": how many passes it takes is not stated (counted, not judged); the hook's
+                            // own limit decides non-termination
                             if k > n as u64 + 1 {
-                                fail(&mut out, "undelegation_terminates", format!("amount {}: {} passes for {} validators", amount, k, n));
+                                out.count("c12.undelegation_more_passes_than_validators");
                             }
                             out.count("c12.undelegation_pass_counts_observed");
                             if k >= 2 {
